@@ -9,7 +9,8 @@ for p in C01 C02 C03 C04 C05 C06 C07 C08 C09 C10 C11 C12 C13 C14 C15 C16 C17 C18
   echo "$st" | grep -v "failures=0$" | grep -q . && { echo "$st" | cut -c1-260; rc=1; } || echo "$st" | head -1
 done
 rm -f /tmp/regress.*.json
-tools/check_all_seeds.sh | grep -v "detected by" && rc=1
-ref=$(tools/refactor_check.sh refactorings/*.diff | grep '^## ' | grep -v ': 0 alarms$' | grep -v 'does not apply$')
+git -C /repo diff --quiet || { echo "/repo is dirty: the copy-based steps use HEAD"; rc=1; }
+tools/check_all_seeds_copy.sh | grep -v "detected by" && rc=1
+ref=$(tools/refactor_check_copy.sh refactorings/*.diff | grep '^## ' | grep -v ': 0 alarms$' | grep -v 'does not apply$')
 [ -n "$ref" ] && { echo "REFACTORING CORPUS: alarms"; echo "$ref"; rc=1; }
 exit $rc
